@@ -675,33 +675,73 @@ class _FakeServer:
         pass
 
 
-def wire_request(handler, method, params, between_polls=None, max_polls=80, replay_input=None):
-    """One XML-RPC request as bytes over a socketpair into a REAL deferring_http_channel whose server has the real
-    supervisor_xmlrpc_handler installed; the channel's own output machinery (push_with_producer, refill_buffer,
-    initiate_send) puts the response on the socket and we read the bytes a client would receive.
-    -> dict(status, headers, body, cl, polls, deferred, answer, fault_string)"""
-    import select
-    from supervisor.http import deferring_http_channel
+HTTP_VARIANTS = {      # request line version + extra header lines (the answer must not depend on them)
+    '1.1': ('HTTP/1.1', ['Host: x']),
+    '1.0': ('HTTP/1.0', []),
+    '1.0-keepalive': ('HTTP/1.0', ['Connection: keep-alive']),
+    '1.1-close': ('HTTP/1.1', ['Host: x', 'Connection: close']),
+    '1.1-utf8-header': ('HTTP/1.1', ['Host: x', 'X-Note: caf\u00e9 \u20ac \U0001f600', 'content-TYPE: text/xml']),
+}
+
+
+def build_raw(method, params, http='1.1'):
+    """the bytes of one XML-RPC POST as xmlrpclib + an HTTP client put them on the wire -> (raw, header length)"""
     from supervisor.compat import xmlrpclib
-    from supervisor import xmlrpc
-    ctx = _CTX[0]
-    a, b = socket.socketpair()
-    ch = deferring_http_channel(_FakeServer([handler]), a, ('127.0.0.1', 0))
-    pushed = []
-    orig_push = ch.push_with_producer
-    ch.push_with_producer = lambda p: (pushed.append(p), orig_push(p))[1]
-    res = {'polls': 0, 'deferred': False}
-    out = b''
-    try:
-        body = xmlrpclib.dumps(tuple(params), method).encode('utf-8')
-        b.sendall(b'POST /RPC2 HTTP/1.1\r\nHost: x\r\nContent-Type: text/xml\r\nContent-Length: %d\r\n\r\n' % len(body) + body)
-        while select.select([a], [], [], 0)[0]:
-            ch.handle_read()
-        res['deferred'] = any(isinstance(p, xmlrpc.DeferredXMLRPCResponse) for p in pushed)
+    version, extra = HTTP_VARIANTS[http]
+    body = xmlrpclib.dumps(tuple(params), method).encode('utf-8')
+    lines = ['POST /RPC2 %s' % version] + extra + ['Content-Type: text/xml', 'Content-Length: %d' % len(body)]
+    head = ('\r\n'.join(lines) + '\r\n\r\n').encode('utf-8')
+    return head + body, len(head)
+
+
+def pieces_of(raw, cuts):
+    """raw cut at the byte offsets `cuts` (strictly inside, ascending): what each recv() of the server returns"""
+    if not cuts:
+        return [raw]
+    pos = [0] + list(cuts) + [len(raw)]
+    return [raw[pos[i]:pos[i + 1]] for i in range(len(pos) - 1)]
+
+
+class Wire:
+    """One client connection: a socketpair into a REAL deferring_http_channel whose server has the real
+    supervisor_xmlrpc_handler installed.  A request reaches the channel as the network would deliver it: in the pieces
+    given by `cuts` (byte offsets into the whole request, header included; None = written at once, which the channel
+    reads in recv(4096) portions); every piece is handed to the channel by asyncore.read(), i.e. with asyncore's own
+    error handling (an exception escaping handle_read closes the channel, as in the daemon).  The channel's own output
+    machinery (push_with_producer, refill_buffer, initiate_send) puts the response on the socket and we read the bytes
+    a client would receive.  Several requests can be exchanged one after another on the same connection."""
+    def __init__(self, handler):
+        from supervisor.http import deferring_http_channel
+        self.a, self.b = socket.socketpair()
+        ch = self.ch = deferring_http_channel(_FakeServer([handler]), self.a, ('127.0.0.1', 0))
+        self.pushed, self.closed, self.said = [], [], []
+        orig_push, orig_close = ch.push_with_producer, ch.close
+        ch.push_with_producer = lambda p: (self.pushed.append(p), orig_push(p))[1]
+        ch.close = lambda: (self.closed.append(1), orig_close())[1]
+        ch.log_info = lambda msg, level='info': self.said.append(msg)          # asyncore's default prints
+        self.b_blocking = True
+
+    def exchange(self, raw, cuts=None, between_polls=None, max_polls=80):
+        """-> (bytes received, polls, deferred?, 'never-completes' | None)"""
+        import select
+        from supervisor.medusa import asyncore_25 as asyncore
+        from supervisor import xmlrpc
+        ch, a, b, closed = self.ch, self.a, self.b, self.closed
+        del self.pushed[:]
+        out, polls = b'', 0
+        b.setblocking(True)
+        for piece in pieces_of(raw, cuts):
+            if closed:
+                break                   # the server hung up: a client's further writes go nowhere
+            b.sendall(piece)
+            while not closed and select.select([a], [], [], 0)[0]:
+                asyncore.read(ch)
+        deferred = any(isinstance(p, xmlrpc.DeferredXMLRPCResponse) for p in self.pushed)
         b.setblocking(False)
         for _ in range(max_polls + 20):
             ch.delay = None          # refill_buffer sets it to the producer's delay (possibly 0.0) on NOT_DONE_YET, to False on data
-            ch.initiate_send()
+            if not closed:
+                ch.initiate_send()
             try:
                 while True:
                     d = b.recv(1 << 16)
@@ -711,35 +751,44 @@ def wire_request(handler, method, params, between_polls=None, max_polls=80, repl
             except BlockingIOError:
                 pass
             if ch.delay is not None and ch.delay is not False:
-                res['polls'] += 1
+                polls += 1
                 if between_polls:
-                    between_polls(res['polls'])
-                if res['polls'] > max_polls:
-                    res['status'] = 'never-completes'
-                    return res
+                    between_polls(polls)
+                if polls > max_polls:
+                    return out, polls, deferred, 'never-completes'
                 continue
-            if not len(ch.producer_fifo) and not ch.ac_out_buffer:
+            if closed or (not len(ch.producer_fifo) and not ch.ac_out_buffer):
                 break
-    finally:
+        return out, polls, deferred, None
+
+    def close(self):
         try:
-            ch.close()
+            self.ch.close()
         except Exception:
             pass
-        b.close()
-    inp = replay_input or {'part': 'e2e-wire', 'method': method, 'params': params}
+        self.b.close()
+
+
+def judge_response(ctx, method, out, deferred, inp, cuts=None, noresp_kind=None, server_said=None):
+    """the bytes a client received for one request -> dict(status, headers, body, cl, answer, fault_string); the framing
+    monitors (a complete, well-formed HTTP response whose Content-Length is the number of body bytes) are applied here"""
+    from supervisor.compat import xmlrpclib
+    res = {}
     head, sep, wire_body = out.partition(b'\r\n\r\n')
     lines = head.split(b'\r\n')
     try:
         res['status'] = int(lines[0].split()[1])
     except Exception:
         res['status'] = 'no-response'
-        ctx.violation('no-http-response:' + method, 'nothing parseable came back on the wire: %r' % out[:80], inp)
+        ctx.violation(noresp_kind or ('no-http-response:' + method), 'nothing parseable came back on the wire: %r%s%s' % (
+            out[:80], ' (request delivered in %d pieces, cuts %r)' % (len(cuts) + 1, list(cuts)[:12]) if cuts else '',
+            '; the channel was closed after: ' + server_said if server_said else ''), inp)
         return res
     res['headers'] = dict((k.strip().lower(), v.strip()) for k, v in (l.decode('latin-1').split(':', 1) for l in lines[1:] if b':' in l))
     res['body'] = wire_body
     if res['status'] != 200:
         return res
-    kind = 'deferred' if res['deferred'] else 'immediate'
+    kind = 'deferred' if deferred else 'immediate'
     ctx.count('wire:' + kind)
     if any(ord(c) > 127 for c in wire_body.decode('utf-8', 'replace')):
         ctx.count('wire:non-ascii-body')
@@ -760,7 +809,7 @@ def wire_request(handler, method, params, between_polls=None, max_polls=80, repl
         try:
             text = wire_body.decode('utf-8')
             if len(text) <= 1500:
-                _FRAMES.append(('d' if res['deferred'] else 'i', text, int(cl), wire_body))
+                _FRAMES.append(('d' if deferred else 'i', text, int(cl), wire_body))
         except UnicodeDecodeError:
             ctx.violation('response-not-utf8:' + method, 'body %r' % wire_body[:60], inp)
     if res['headers'].get('content-type') != 'text/xml':
@@ -771,6 +820,26 @@ def wire_request(handler, method, params, between_polls=None, max_polls=80, repl
         res['answer'] = ('fault', f.faultCode); res['fault_string'] = f.faultString
     except Exception as e:
         res['answer'] = ('unparseable', type(e).__name__)
+    return res
+
+
+def wire_request(handler, method, params, between_polls=None, max_polls=80, replay_input=None, cuts=None, http='1.1',
+                 noresp_kind=None):
+    """One XML-RPC request on a fresh connection (see Wire), delivered in the pieces given by `cuts`.
+    -> dict(status, headers, body, cl, polls, deferred, answer, fault_string)"""
+    ctx = _CTX[0]
+    w = Wire(handler)
+    try:
+        raw, hlen = build_raw(method, params, http)
+        out, polls, deferred, never = w.exchange(raw, cuts, between_polls, max_polls)
+        said = w.said[-1][:300] if (w.closed and w.said) else None
+    finally:
+        w.close()
+    if never:
+        return {'polls': polls, 'deferred': deferred, 'status': never}
+    inp = replay_input or {'part': 'e2e-wire', 'method': method, 'params': params}
+    res = judge_response(ctx, method, out, deferred, inp, cuts, noresp_kind, said)
+    res['polls'], res['deferred'] = polls, deferred
     return res
 
 
@@ -887,6 +956,10 @@ def e2e_case(ctx, method, params, mood=1, extra=None, prepare=None):
                           % (method, tuple(params), last.get('answer'), last.get('fault_string'), direct), inp)
     if (extra or {}).get('expect') is not None and out != tuple(extra['expect']):
         ctx.violation(extra['expect_kind'], '%s%r over the wire answered %r, required %r' % (method, tuple(params), out, tuple(extra['expect'])), inp)
+    if (extra or {}).get('frag', True):
+        # the delivery dimension: the same request cut into pieces / as another HTTP variant answers the same
+        frag_variants(ctx, method, params, mood, last, prepare, (extra or {}).get('regression'))
+        e2e_request.last = last
     return out
 
 
@@ -905,6 +978,238 @@ def e2e_multi_case(ctx, picks):
     if [norm(g) for g in got] != [norm(w) for w in want]:
         ctx.violation('multicall-differs-from-sequential', 'multicall over the wire answered %r, single requests answer %r' % (got, want),
                       {'part': 'e2e-multi', 'calls': [[m, p] for m, p in picks]})
+
+
+# =================================================================================================
+# how the request reaches the server: fragmentation, HTTP variants, connection reuse
+#   The statement quantifies over calls, not over TCP segmentations: the answer to a call (HTTP status + XML-RPC value or
+#   fault) must be a complete well-formed response and the same however the bytes of the request are cut into recv()s.
+# =================================================================================================
+NOFRAG = 'no-answer-to-fragmented-request'
+_BODIES = []           # (body bytes, cut offsets inside the body) of fragmented requests, for the collector correspondence
+
+
+def inside_char_cuts(raw):
+    """offsets at which a cut separates the bytes of one UTF-8 encoded character"""
+    return [i for i in range(1, len(raw)) if raw[i] & 0xC0 == 0x80]
+
+
+def random_cuts(rng, n, k, lo=1):
+    lo = min(max(lo, 1), n - 1)
+    return sorted(rng.sample(range(lo, n), min(k, n - lo)))
+
+
+def frag_plans(rng, raw, hlen, exhaustive, k_random=2):
+    """delivery plans (ascending cut offsets into the whole request) for one request"""
+    n = len(raw)
+    mb = inside_char_cuts(raw)
+    plans = []
+    if exhaustive:
+        plans += [[c] for c in range(1, n)]                         # every delivery in two pieces
+        plans.append(list(range(1, n)))                             # one byte per recv()
+        plans += [sorted(set([hlen, c])) for c in mb]               # headers first, then the body cut inside a character
+        plans += [[c - 1, c] for c in mb if c >= 2]                 # a lead/continuation byte on its own
+    else:
+        plans += [[hlen], [hlen - 2], [min(hlen + 1, n - 1)]]       # headers | body, inside the blank line, one body byte late
+        plans += [[c] for c in (mb if len(mb) <= 3 else rng.sample(mb, 3))]
+        plans += [[rng.randrange(1, n)] for _ in range(k_random)]
+    if mb:
+        plans.append(mb)                                            # every multi-byte character cut, all at once
+    for _ in range(k_random):
+        plans.append(random_cuts(rng, n, rng.randrange(2, 8)))
+        plans.append(random_cuts(rng, n, rng.randrange(1, 5), lo=hlen))       # the body only
+    seen, res = set(), []
+    for pl in plans:
+        if pl and tuple(pl) not in seen:
+            seen.add(tuple(pl)); res.append(pl)
+    return res
+
+
+def answer_key(res):
+    """what a client learns from a response: HTTP status, and the XML-RPC value or fault (code and text)"""
+    if res.get('status') != 200 or 'answer' not in res:
+        return ('http', res.get('status'))
+    a = res['answer']
+    if a[0] == 'fault':
+        return ('fault', a[1], res.get('fault_string'))
+    if a[0] == 'value':
+        return ('value', repr(norm_value(a[1])))
+    return tuple(a)
+
+
+def frag_deliver(ctx, method, params, mood, cuts, http, base_key, prepare=None, regression=None):
+    """the same request to a fresh world, delivered in the pieces `cuts` / as HTTP variant `http`; its answer must be
+    complete and well formed (judge_response) and the one-piece answer `base_key`"""
+    sup, iface, h = e2e_world(ctx, mood)
+    if prepare:
+        prepare(sup)
+    inp = {'part': 'e2e-frag', 'method': method, 'params': params, 'mood': mood, 'cuts': list(cuts or []), 'http': http}
+    if regression:
+        inp['regression'] = regression
+    res = wire_request(h, method, params, replay_input=inp, cuts=cuts or None, http=http, noresp_kind=NOFRAG if cuts else None)
+    npieces = len(cuts or []) + 1
+    ctx.count('frag:deliveries'); ctx.count('frag:pieces=%s' % (npieces if npieces < 4 else '4..9' if npieces < 10 else '10+'))
+    ctx.count('frag:http=' + http)
+    raw, hlen = build_raw(method, params, http)
+    incut = set(inside_char_cuts(raw)) & set(cuts or [])
+    if incut:
+        ctx.count('frag:cut-inside-character')
+    if cuts and len(raw) - hlen <= 600 and len(_BODIES) < 4000:
+        _BODIES.append((raw[hlen:], [c - hlen for c in cuts if c > hlen]))
+    ctx.case_done(('e2e-frag', method, repr(params), mood, tuple(cuts or ()), http), nontrivial=bool(cuts))
+    key = answer_key(res)
+    if key != base_key and res.get('status') != 'no-response':          # (no response at all: reported by wire_request)
+        ctx.violation('answer-depends-on-fragmentation' if cuts else 'answer-depends-on-http-variant',
+                      '%s%r delivered %s answers %r; delivered at once as HTTP/1.1 it answers %r' % (
+                          method, tuple(params), ('in %d pieces (cuts %r%s)' % (npieces, list(cuts)[:12], ', inside a character' if incut else ''))
+                          if cuts else 'as ' + http, key, base_key), inp)
+    return res
+
+
+def frag_variants(ctx, method, params, mood, base, prepare=None, regression=None, exhaustive=False, http_variants=False):
+    """the fragmentation dimension of one end-to-end case"""
+    rng = ctx.rng
+    base_key = answer_key(base)
+    raw, hlen = build_raw(method, params, '1.1')
+    plans = frag_plans(rng, raw, hlen, exhaustive, k_random=(2 if ctx.tier == 'quick' else 4) if not exhaustive else 6)
+    for cuts in plans:
+        frag_deliver(ctx, method, params, mood, cuts, '1.1', base_key, prepare, regression)
+    variants = [v for v in HTTP_VARIANTS if v != '1.1']
+    for http in (variants if http_variants else [rng.choice(variants)]):
+        raw2, hlen2 = build_raw(method, params, http)
+        frag_deliver(ctx, method, params, mood, None, http, base_key, prepare, regression)
+        for cuts in frag_plans(rng, raw2, hlen2, False, k_random=1)[:(12 if http_variants else 3)]:
+            frag_deliver(ctx, method, params, mood, cuts, http, base_key, prepare, regression)
+
+
+NONASCII = ['caf\u00e9-\u20ac-worker', 'grp:pr\u00f6c', 'n\u00e9ant:\u20ac', '\U0001f600', '\u00e9', 'a\u00e9', '\u4e2d\u6587:\u0440\u0443', 'x\u07ff\u0800\uffff',
+            'grp:\U00010000\U0010ffff', 'SIGN\u00c9', '\u00e9\u20ac\U0001f600\n', 'd\u00e4t\u00e4 \u4e2d']
+
+FRAG_CORPUS = [      # (method, params): the first is the input of seeded change C12-4 (demo.py); the rest: one per string-argument role
+    ('supervisor.getProcessInfo', ['caf\u00e9-\u20ac-worker']),
+    ('supervisor.sendProcessStdin', ['grp:proc', '\u00e9\u20ac\U0001f600\n']),
+    ('supervisor.sendRemoteCommEvent', ['t\u00ffpe', 'd\u00e4t\u00e4 \u4e2d\u6587']),
+    ('supervisor.signalProcess', ['grp:pr\u00f6c', 'SIGN\u00c9']),
+    ('supervisor.startProcess', ['n\u00e9ant:\u20ac', False]),
+    ('system.multicall', [[{'methodName': 'supervisor.getProcessInfo', 'params': ['n\u00e9ant']}, {'methodName': 'supervisor.getPID', 'params': []},
+                           {'methodName': 'supervisor.stopProcess', 'params': ['\U0001f600']}]]),
+    ('system.methodHelp', ['supervisor.getP\u00cdD']),
+    ('supervisor.nosuch\u00e9', []),
+    ('supervisor.getPID', []),
+    ('supervisor.readProcessStdoutLog', ['grp:proc', 0, 0]),
+    ('supervisor.addProcessGroup', ['gr\u00fcp']),
+    ('supervisor.stopProcessGroup', ['\U0001f600', False]),
+]
+
+
+def takes_text(func):
+    from supervisor.xmlrpc import gettags
+    return any(t[1] == 'param' and t[2] in ('string', 'array') for t in gettags(func.__doc__ or ''))
+
+
+def nonascii_args(rng, func):
+    """arguments of the documented types, every string one that is not ASCII"""
+    from supervisor.xmlrpc import gettags
+    args = []
+    for t in gettags(func.__doc__ or ''):
+        if t[1] != 'param':
+            continue
+        ty = t[2]
+        if ty == 'string': args.append(rng.choice(NONASCII))
+        elif ty == 'int': args.append(rng.choice(EDGES))
+        elif ty == 'boolean': args.append(rng.random() < 0.5)
+        elif ty == 'array': args.append([{'methodName': 'supervisor.getProcessInfo', 'params': [rng.choice(NONASCII)]} for _ in range(rng.randrange(1, 4))])
+        else: args.append({})
+    return args
+
+
+def frag_case(ctx, method, params, mood=1, exhaustive=True, http_variants=True):
+    """one request of the fragmentation population: delivered at once (all monitors of e2e_case, fragmentation sample
+    included), then in every plan of frag_plans"""
+    e2e_case(ctx, method, params, mood, {'frag': False})
+    frag_variants(ctx, method, params, mood, e2e_request.last, exhaustive=exhaustive, http_variants=http_variants)
+
+
+def big_text(rng, nbytes, pad):
+    """text of about nbytes UTF-8 bytes, characters of 1..4 bytes, preceded by `pad` ASCII characters (shifts where the
+    channel's 4096-byte reads fall)"""
+    out, n = ['p' * pad], pad
+    while n < nbytes:
+        c = rng.choice(['\u00e9', '\u20ac', '\U0001f600', '\u00e9', 'a', '\u4e2d'])
+        out.append(c); n += len(c.encode('utf-8'))
+    return ''.join(out)
+
+
+def session_case(ctx, reqs, mood=1, plans=None):
+    """several requests one after another on ONE connection (what xmlrpclib's keep-alive transport and supervisorctl
+    do), each cut at random: every answer is the answer the same sequence gets on separate connections"""
+    rng = ctx.rng
+    def play(one_connection, plans):
+        sup, iface, h = e2e_world(ctx, mood)
+        keys, w = [], None
+        try:
+            for i, (m, p) in enumerate(reqs):
+                if w is None or not one_connection:
+                    if w: w.close()
+                    w = Wire(h)
+                raw, hlen = build_raw(m, p, '1.1')
+                out, polls, deferred, never = w.exchange(raw, plans[i])
+                inp = {'part': 'e2e-session', 'reqs': [[m_, p_] for m_, p_ in reqs], 'plans': plans_used, 'mood': mood}
+                if never:
+                    keys.append(('http', never)); continue
+                said = w.said[-1][:300] if (w.closed and w.said) else None
+                res = judge_response(ctx, m, out, deferred, inp, plans[i], 'no-answer-on-reused-connection' if one_connection else None, said)
+                keys.append(answer_key(res))
+        finally:
+            if w: w.close()
+        return keys
+    plans_used = list(plans or [])
+    for m, p in (reqs if plans is None else []):
+        raw, hlen = build_raw(m, p, '1.1')
+        mb = inside_char_cuts(raw)
+        r = rng.random()
+        plans_used.append(None if r < 0.2 else [rng.choice(mb)] if (mb and r < 0.6) else random_cuts(rng, len(raw), rng.randrange(1, 5)))
+    want = play(False, [None] * len(reqs))
+    got = play(True, plans_used)
+    ctx.count('frag:sessions'); ctx.count('frag:session-requests', len(reqs))
+    ctx.case_done(('e2e-session', repr(reqs), repr(plans_used)), nontrivial=True)
+    if got != want and not any(k == ('http', 'no-response') for k in got):
+        k = next(i for i in range(len(reqs)) if got[i] != want[i])
+        ctx.violation('answer-depends-on-connection-reuse', 'request %d (%s%r) on a reused connection, cuts %r, answers %r; on its own connection %r'
+                      % (k, reqs[k][0], tuple(reqs[k][1]), plans_used[k], got[k], want[k]),
+                      {'part': 'e2e-session', 'reqs': [[m_, p_] for m_, p_ in reqs], 'plans': plans_used, 'mood': mood})
+
+
+def run_frag(ctx):
+    rng = ctx.rng
+    sup, iface, h = e2e_world(ctx)
+    publics = [('supervisor.' + a, getattr(iface, a)) for a in dir(iface) if not a.startswith('_') and inspect.ismethod(getattr(iface, a))]
+    sysi = dict(make_real()[2])['system']
+    publics += [('system.' + a, getattr(sysi, a)) for a in dir(sysi) if not a.startswith('_') and inspect.ismethod(getattr(sysi, a))]
+    stringy = [(m, f) for m, f in publics if takes_text(f)]
+    # ---- corpus: every 2-piece delivery, byte at a time, every cut inside a character, every HTTP variant
+    for m, p in FRAG_CORPUS:
+        frag_case(ctx, m, p, 1, exhaustive=True)
+    # ---- every public method taking text, non-ASCII arguments: exhaustive for a sample, the standard plans for the rest
+    for r in range(ctx.n(1, 6)):
+        picks = set(rng.sample(range(len(stringy)), min(len(stringy), 2 if ctx.tier == 'quick' else 6)))
+        for i, (m, f) in enumerate(stringy):
+            frag_case(ctx, m, nonascii_args(rng, f), rng.choice([1, 1, 1, -1, 0]), exhaustive=i in picks, http_variants=i in picks)
+    # ---- bodies larger than the channel's read size: delivered at once they arrive in recv(4096) portions
+    for r in range(ctx.n(1, 4)):
+        for size in (4096, 8192, 12288 + rng.randrange(0, 4096)):
+            for pad in range(4):
+                text = big_text(rng, size, pad)
+                m, p = rng.choice([('supervisor.sendProcessStdin', ['grp:proc', text]), ('supervisor.sendRemoteCommEvent', ['t', text]),
+                                   ('supervisor.getProcessInfo', [text]), ('supervisor.signalProcess', ['grp:proc', text]),
+                                   ('system.multicall', [[{'methodName': 'supervisor.getProcessInfo', 'params': [text[:len(text) // 2]]},
+                                                          {'methodName': 'supervisor.stopProcess', 'params': [text[len(text) // 2:]]}]])])
+                frag_case(ctx, m, p, 1, exhaustive=False, http_variants=False)
+                ctx.count('frag:big-bodies')
+    # ---- connection reuse
+    pool = list(FRAG_CORPUS) + [('supervisor.getState', []), ('supervisor.getAllProcessInfo', []), ('supervisor.nosuch', []), ('supervisor.getPID', [1])]
+    for _ in range(ctx.n(40, 400)):
+        session_case(ctx, [rng.choice(pool) for _ in range(rng.randrange(2, 5))])
 
 
 def run_e2e(ctx):
@@ -1112,7 +1417,9 @@ def run(ctx):
     run_gate(ctx)
     _CTX[0] = ctx
     del _FRAMES[:]
+    del _BODIES[:]
     run_e2e(ctx)
+    run_frag(ctx)
     run_e2e_deferred(ctx)
     run_frames(ctx)
 
@@ -1156,6 +1463,16 @@ def replay(ctx, data):
             e2e_case(ctx, inp['method'], inp['params'], inp.get('mood', 1), extra, prepare)
     elif part == 'e2e-multi':
         e2e_multi_case(ctx, [(m, p) for m, p in inp['calls']])
+    elif part == 'e2e-frag':
+        prepare = make_stdin_full_process if inp.get('regression') == 'F21' else None
+        sup, iface, h = e2e_world(ctx, inp.get('mood', 1))
+        if prepare:
+            prepare(sup)
+        base = wire_request(h, inp['method'], inp['params'])
+        frag_deliver(ctx, inp['method'], inp['params'], inp.get('mood', 1), inp.get('cuts') or None, inp.get('http', '1.1'),
+                     answer_key(base), prepare, inp.get('regression'))
+    elif part == 'e2e-session':
+        session_case(ctx, [(m, p) for m, p in inp['reqs']], inp.get('mood', 1), plans=inp['plans'])
     elif part == 'e2e-deferred':
         if inp.get('case') == 'slow':
             deferred_slow_case(ctx, inp['k'], inp['kind'], inp['in_multicall'])
